@@ -130,25 +130,32 @@ Definition retry_of (c : ucfg) : nat * nat :=
   match u_retry c with Some nw => nw | None => (1, 0) end.
 
 (* ------------------------------------------------------------ Run, user nodes *)
-(* the retry loop flyt.go:719-738; k = attempts left, i = attempt index *)
-Fixpoint attempts (c : ucfg) (n : nid) (w : nat) (k i : nat) (s : ms) (p : val)
-         (last : val + err) {struct k} : ms * ares :=
+(* the retry loop, flyt.go:719-738 and its copy batch.go:317-334; k = attempts left,
+   i = attempt index.  The two Go copies differ only in the text of the two context errors
+   (wrap sites sr, sw); witem names the item in the pseudo-event of the wait. *)
+Fixpoint retry_loop (sr sw witem : nat) (c : ucfg) (n : nid) (w : nat) (k i : nat) (s : ms)
+         (p : val) (last : val + err) {struct k} : ms * ares :=
   match k with
   | 0 => (s, ARes last)
   | S k' =>
-      if cancelled s then (s, AAbort (EWrap W_CTX_RETRY ECtx)) else
+      if cancelled s then (s, AAbort (EWrap sr ECtx)) else
       let '(s1, interrupted) :=
         if Nat.ltb 0 i && Nat.ltb 0 w
-        then let '(s', _) := emit o s (CWait n 0 i) in
+        then let '(s', _) := emit o s (CWait n witem i) in
              (s', cancelled s')
         else (s, false) in
-      if interrupted then (s1, AAbort (EWrap W_CTX_WAIT ECtx)) else
+      if interrupted then (s1, AAbort (EWrap sw ECtx)) else
       let '(s2, r) := node_exec c n s1 p in
       match r with
       | inl x => (s2, ARes (inl x))
-      | inr e => attempts c n w k' (S i) s2 p (inr e)
+      | inr e => retry_loop sr sw witem c n w k' (S i) s2 p (inr e)
       end
   end.
+
+(* flyt.go:719-738 *)
+Definition attempts (c : ucfg) (n : nid) (w : nat) (k i : nat) (s : ms) (p : val)
+           (last : val + err) : ms * ares :=
+  retry_loop W_CTX_RETRY W_CTX_WAIT 0 c n w k i s p last.
 
 Definition run_user (c : ucfg) (n : nid) (s : ms) : ms * outcome :=
   if cancelled s then (s, Fail (EWrap W_RUN_CTX0 ECtx)) else
@@ -193,24 +200,10 @@ Definition normalise (pv : val) : list val :=
   end.
 
 (* runExecWithRetries, batch.go:304-344 *)
-Fixpoint item_attempts (c : ucfg) (n : nid) (w : nat) (k i : nat) (s : ms) (item : val)
-         (last : val + err) {struct k} : ms * ares :=
-  match k with
-  | 0 => (s, ARes last)
-  | S k' =>
-      if cancelled s then (s, AAbort (EWrap W_ITEM_CTX_RETRY ECtx)) else
-      let '(s1, interrupted) :=
-        if Nat.ltb 0 i && Nat.ltb 0 w
-        then let '(s', _) := emit o s (CWait n (match item with VRes (VTok t) _ => t | _ => 0 end) i) in
-             (s', cancelled s')
-        else (s, false) in
-      if interrupted then (s1, AAbort (EWrap W_ITEM_CTX_WAIT ECtx)) else
-      let '(s2, r) := node_exec c n s1 item in
-      match r with
-      | inl x => (s2, ARes (inl x))
-      | inr e => item_attempts c n w k' (S i) s2 item (inr e)
-      end
-  end.
+Definition wait_item (item : val) : nat := match item with VRes (VTok t) _ => t | _ => 0 end.
+Definition item_attempts (c : ucfg) (n : nid) (w : nat) (k i : nat) (s : ms) (item : val)
+           (last : val + err) : ms * ares :=
+  retry_loop W_ITEM_CTX_RETRY W_ITEM_CTX_WAIT (wait_item item) c n w k i s item last.
 
 Definition exec_with_retries (c : ucfg) (n : nid) (s : ms) (item : val) : ms * (val + err) :=
   let '(N, w) := retry_of c in
